@@ -3,6 +3,8 @@ package main
 import (
 	"fmt"
 	"go/token"
+	"go/types"
+	"strconv"
 	"sort"
 	"strings"
 
@@ -252,4 +254,144 @@ func normBasic(s string) string {
 		return "int32"
 	}
 	return s
+}
+
+// describePiece names one appended piece of a byte string being assembled: a fixed-width integer
+// buffer (make([]byte, K) written by exactly one PutUintN covering it), a field, a constant.
+func (c *Ctx) describePiece(f *ssa.Function, v ssa.Value) string {
+	orig := v
+	for {
+		switch x := v.(type) {
+		case *ssa.Slice:
+			if x.Low == nil && x.High == nil {
+				v = x.X
+				continue
+			}
+			if al, ok := x.X.(*ssa.Alloc); ok && x.Low == nil && al.Comment == "makeslice" {
+				// make([]byte, K): new [K]byte + slice [:K]
+				if n, ok := arrayLen(al.Type().(*types.Pointer).Elem()); ok {
+					if k, ok := constInt(x.High); ok && k == n {
+						v = al
+						continue
+					}
+				}
+			}
+		case *ssa.Convert:
+			v = x.X
+			continue
+		case *ssa.ChangeType:
+			v = x.X
+			continue
+		}
+		break
+	}
+	if s, ok := constString(v); ok {
+		return fmt.Sprintf("%q", s)
+	}
+	if mk, ok := v.(*ssa.Alloc); ok && mk.Comment == "makeslice" {
+		k, _ := arrayLen(mk.Type().(*types.Pointer).Elem())
+		var puts []string
+		allInstrs(f, func(_ *ssa.BasicBlock, in ssa.Instruction) {
+			cl, ok := in.(*ssa.Call)
+			if !ok {
+				return
+			}
+			q := callQName(&cl.Call)
+			if strings.HasPrefix(q, "encoding/binary.") && strings.Contains(q, ".PutUint") {
+				base, lo, hi := sliceBounds(cl.Call.Args[1])
+				if base == ssa.Value(mk) {
+					if k2, ok := constInt64Str(hi); ok && k2 == k && lo == "" {
+						hi = ""
+					}
+					end := "LE"
+					if strings.Contains(q, "bigEndian") {
+						end = "BE"
+					}
+					bits := q[strings.LastIndex(q, "PutUint")+7:]
+					ts, root := convChain(cl.Call.Args[2])
+					rs := shape(root, 2)
+					if _, n, ok := fieldOfLoad(root); ok {
+						rs = n
+					}
+					puts = append(puts, fmt.Sprintf("%s%s[%s:%s](%s %s)", end, bits, lo, hi, strings.Join(ts, "<-"), rs))
+				}
+			}
+		})
+		sort.Strings(puts)
+		return fmt.Sprintf("buf%d{%s}", k, strings.Join(puts, ","))
+	}
+	if _, n, ok := fieldOfLoad(v); ok {
+		return "field:" + n
+	}
+	if al, ok := v.(*ssa.Alloc); ok {
+		for _, st := range storesTo(al) {
+			if cl := callOf(st.Val); cl != nil {
+				return "call:" + shortQ(callQName(&cl.Call))
+			}
+		}
+		// composite literal array: list constant element stores
+		var ks []string
+		for _, r := range *al.Referrers() {
+			if ia, ok := r.(*ssa.IndexAddr); ok {
+				for _, st := range storesTo(ia) {
+					if k, ok := constInt(st.Val); ok {
+						ks = append(ks, fmt.Sprintf("%02x", k))
+					}
+				}
+			}
+		}
+		return "lit{" + strings.Join(ks, " ") + "}"
+	}
+	if cl := callOf(v); cl != nil {
+		return "call:" + shortQ(callQName(&cl.Call))
+	}
+	if u, ok := v.(*ssa.UnOp); ok && u.Op == token.MUL {
+		if al, ok := u.X.(*ssa.Alloc); ok {
+			for _, st := range storesTo(al) {
+				if cl := callOf(st.Val); cl != nil {
+					return "call:" + shortQ(callQName(&cl.Call))
+				}
+			}
+		}
+	}
+	return shape(orig, 3)
+}
+
+func fieldOfLoad(v ssa.Value) (string, string, bool) {
+	if fl, ok := v.(*ssa.Field); ok {
+		return fieldOf(fl)
+	}
+	if u, ok := v.(*ssa.UnOp); ok && u.Op == token.MUL {
+		return fieldOf(u.X)
+	}
+	return "", "", false
+}
+
+// assembled returns the pieces of the byte string v built by successive appends.
+func (c *Ctx) assembled(f *ssa.Function, v ssa.Value) []string {
+	var vals []ssa.Value
+	seen := map[ssa.Value]bool{}
+	for v != nil && !seen[v] {
+		seen[v] = true
+		cl, ok := v.(*ssa.Call)
+		if ok {
+			if b, ok := cl.Call.Value.(*ssa.Builtin); ok && b.Name() == "append" {
+				vals = append([]ssa.Value{cl.Call.Args[1]}, vals...)
+				v = cl.Call.Args[0]
+				continue
+			}
+		}
+		vals = append([]ssa.Value{v}, vals...)
+		break
+	}
+	var out []string
+	for _, x := range vals {
+		out = append(out, c.describePiece(f, x))
+	}
+	return out
+}
+
+func constInt64Str(s string) (int64, bool) {
+	k, err := strconv.ParseInt(s, 10, 64)
+	return k, err == nil
 }
